@@ -531,6 +531,8 @@ RULES += engine.movegen_premises()
 # the position searched was loaded by `position`: a valid FEN must load (the parser's alphabet is exactly the valid one,
 # C07), and the counters make_move steps in the tree must be wide enough for any game (C15.counter-widths)
 RULES += engine.premise_rules("c07", ["letters", "side-ep", "castle-letters", "fields"])
+# what a cut child hands back is a dummy: it becomes neither a cache entry nor alpha / the best move (C13)
+RULES += engine.premise_rules("c13", ["guard", "child-score"])
 # the search walks a copy of the board: the copy is the same position (C04.clone)
 RULES += engine.premise_rules("c04", ["clone"])
 RULES += engine.premise_rules("c15", ["counter-widths"])
